@@ -303,11 +303,13 @@ DoRefresh(s, a) ==
 \* loader supplied is installed, every requested key it omitted is treated as not found (an existing entry is
 \* removed), keys it volunteered are installed, an error or panic changes nothing but the refresh time of
 \* reloaded entries.  cl = "load" | "refresh".
-BulkCall(s, Q, a, cl) ==
+\* value the scripted bulk loader supplies for key k in its idx-th invocation within one operation
+BV(s, a, k, idx) == a.v + k + (idx - 1) * s.cfg.nk
+BulkCall(s, Q, a, cl, idx) ==
     IF a.shape \in {"map", "nil"}
     THEN LET sup == IF a.shape = "map" THEN SeqToSet(a.supply) \cap Keys(s) ELSE {}
          IN [s |-> LoadOk(s), ok |-> TRUE,
-             ph |-> {MW(k, "put", a.v + k, cl, k \in Q) : k \in sup} \cup {MW(k, "del", 0, cl, TRUE) : k \in Q \ sup}]
+             ph |-> {MW(k, "put", BV(s, a, k, idx), cl, k \in Q) : k \in sup} \cup {MW(k, "del", 0, cl, TRUE) : k \in Q \ sup}]
     ELSE \* the code also applies the reload-failure hook to entries of keys a failing bulk reload volunteered
          LET extra == IF a.shape = "err" THEN SeqToSet(a.supply) \cap Keys(s) ELSE {}
          IN [s |-> LoadKo(s), ok |-> FALSE,
@@ -331,13 +333,14 @@ DoBulkGet(s, a) ==
         M  == SeqToSet(ks) \ H
         hitv == {<<k, s.ent[k].v>> : k \in H}
         T  == {k \in H : HasRef(s.cfg) /\ ~Fresh(lk.s, k)}       \* served stale, reloaded in one bulk reload
-        c1 == IF T = {} THEN NoCall(lk.s) ELSE BulkCall(lk.s, T, a, "refresh")
+        c1 == IF T = {} THEN NoCall(lk.s) ELSE BulkCall(lk.s, T, a, "refresh", 1)
         l1 == IF T = {} THEN {} ELSE {BulkLoadRec("BulkReload", T, lk.s)}
         p1 == T # {} /\ a.shape = "panic"
-        c2 == IF M = {} \/ p1 THEN NoCall(c1.s) ELSE BulkCall(c1.s, M, a, "load")
+        i2 == IF T = {} THEN 1 ELSE 2
+        c2 == IF M = {} \/ p1 THEN NoCall(c1.s) ELSE BulkCall(c1.s, M, a, "load", i2)
         l2 == IF M = {} \/ p1 THEN {} ELSE {BulkLoadRec("BulkLoad", M, c1.s)}
         sup == IF a.shape = "map" THEN SeqToSet(a.supply) ELSE {}
-        loaded == IF M = {} \/ p1 \/ ~c2.ok THEN {} ELSE {<<k, a.v + k>> : k \in M \cap sup}
+        loaded == IF M = {} \/ p1 \/ ~c2.ok THEN {} ELSE {<<k, BV(s, a, k, i2)>> : k \in M \cap sup}
         pan == p1 \/ (M # {} /\ a.shape = "panic")
     IN R(c2.s, [O0 EXCEPT !.ok = IF M # {} /\ ~p1 /\ a.shape = "err" THEN 0 ELSE 1,
                           !.err = IF M # {} /\ ~p1 /\ a.shape = "err" THEN "err" ELSE "",
@@ -354,15 +357,16 @@ DoBulkRefresh(s, a) ==
     LET Q  == SeqToSet(a.ks) \cap Keys(s)
         TR == {k \in Q : Live(s, k)}          \* reloaded with their current value
         TL == Q \ TR                          \* loaded
-        c1 == IF TL = {} THEN NoCall(s) ELSE BulkCall(s, TL, a, "refresh")
+        c1 == IF TL = {} THEN NoCall(s) ELSE BulkCall(s, TL, a, "refresh", 1)
         l1 == IF TL = {} THEN {} ELSE {BulkLoadRec("BulkLoad", TL, s)}
         p1 == TL # {} /\ a.shape = "panic"
-        c2 == IF TR = {} \/ p1 THEN NoCall(c1.s) ELSE BulkCall(c1.s, TR, a, "refresh")
+        i2 == IF TL = {} THEN 1 ELSE 2
+        c2 == IF TR = {} \/ p1 THEN NoCall(c1.s) ELSE BulkCall(c1.s, TR, a, "refresh", i2)
         l2 == IF TR = {} \/ p1 THEN {} ELSE {BulkLoadRec("BulkReload", TR, s)}   \* old values as read at the start
         sup == IF a.shape = "map" THEN SeqToSet(a.supply) ELSE {}
         pan == a.shape = "panic" /\ Q # {}
         rr(k) == IF a.shape = "err" THEN [k |-> k, v |-> 0, err |-> "err"]
-                 ELSE IF k \in sup THEN [k |-> k, v |-> a.v + k, err |-> ""]
+                 ELSE IF k \in sup THEN [k |-> k, v |-> BV(s, a, k, IF k \in TL THEN 1 ELSE i2), err |-> ""]
                  ELSE [k |-> k, v |-> 0, err |-> "nf"]
     IN R(c2.s, [O0 EXCEPT !.ch = 1, !.panic = IF pan THEN 1 ELSE 0,
                           !.rrs = IF pan THEN {} ELSE {rr(k) : k \in Q},
